@@ -1171,7 +1171,11 @@ func runC11(seed int64, tier string, outDir string) *result {
 		}
 		for _, name := range []string{"NewFromMultihash", "NewFromEntryHash", "NewFromJSON", "NewFromEntry"} {
 			res.Evaluations++
+			// the caller's context never ends, or has its own - much later - deadline
 			ctx, cancel := context.WithCancel(context.Background())
+			if i%2 == 1 {
+				ctx, cancel = context.WithTimeout(context.Background(), 30*time.Second)
+			}
 			d.dag.gate = func(gctx context.Context, c cid.Cid) {
 				if c == stuckCid {
 					<-gctx.Done()
